@@ -20,6 +20,9 @@ EXPLANATION = (
     "Sites that read archive formats this tool chain never writes (AIX, CMS) are frozen exceptions with a reason. R2: the "
     "result of every call of libChkHeader is tested. R3: in libGetSection the buffer handed to the decoders is created from "
     "the byte string that was read with the checked count (bufCapture(s, cc) / bufNeed(..., cc) with the same cc). "
+    "R4: the loops and tests of libChkHeader that refuse a header constrain hdr.Section[j].name and .offset for every j "
+    "in [LIB_INDEX_START, hdr.numSect) (interval arithmetic over loop headers of the form i = c; i < bound; i += 1; the "
+    "entry constrained by a test is the highest index it mentions). "
     "Not decided: that every corruption inside a complete section is detected (the format has no checksums).")
 
 FROZEN = os.path.join(os.path.dirname(__file__), "frozen")
@@ -57,6 +60,160 @@ def role_of(par, c):
     if p["k"] == "ReturnStmt":
         return "returned", None
     return p["k"], None
+
+
+def _affine(n, var_did):
+    """n as (base, k): `base + k` where base is 'i' (the loop variable), a rendered expression, or None for a constant."""
+    n = strip(n)
+    if n is None:
+        return None
+    cv = common.const_value(n)
+    if cv is not None:
+        return (None, cv)
+    if n["k"] == "DeclRefExpr" and n.get("did") == var_did:
+        return ("i", 0)
+    if n["k"] == "BinaryOperator" and n["op"] in ("+", "-"):
+        a, b = _affine(n["c"][0], var_did), _affine(n["c"][1], var_did)
+        if a is None or b is None:
+            return None
+        if b[0] is None:
+            return (a[0], a[1] + (b[1] if n["op"] == "+" else -b[1]))
+        if a[0] is None and n["op"] == "+":
+            return (b[0], a[1] + b[1])
+        return None
+    return (render(n), 0)
+
+
+def header_cover(fn):
+    """R4 facts for libChkHeader: which indexes of hdr.Section[] have their
+    `name` / `offset` field constrained by a test that leads to a refusal.
+    Returns {field: [(lo, (hi_base, hi_k))]} as half-open intervals; a single
+    constant index c is (c, (None, c+1))."""
+    par = common.parents(fn["body"])
+    cover = {"name": [], "offset": []}
+    problems = []
+
+    def enclosing_for(n):
+        p = par.get(n["id"])
+        while p is not None:
+            if p["k"] == "ForStmt":
+                return p
+            p = par.get(p["id"])
+        return None
+
+    def loop_range(fs):
+        init, cond, inc = fs["c"][0], fs["c"][1], fs["c"][2]
+        if init is None or init["k"] != "BinaryOperator" or init["op"] != "=":
+            return None
+        v = strip(init["c"][0])
+        lo = common.const_value(init["c"][1])
+        if v is None or v["k"] != "DeclRefExpr" or lo is None:
+            return None
+        did = v["did"]
+        cond = strip(cond)
+        if cond is None or cond["k"] != "BinaryOperator" or cond["op"] not in ("<", "<="):
+            return None
+        l = strip(cond["c"][0])
+        if l is None or l.get("did") != did:
+            return None
+        hi = _affine(cond["c"][1], did)
+        if hi is None or hi[0] == "i":
+            return None
+        if cond["op"] == "<=":
+            hi = (hi[0], hi[1] + 1)
+        inc = strip(inc)
+        step_ok = inc is not None and ((inc["k"] == "CompoundAssignOperator" and inc["op"] == "+=" and common.const_value(inc["c"][1]) == 1)
+                                       or (inc["k"] == "UnaryOperator" and inc["op"] in ("++", "post++", "pre++")))
+        if not step_ok:
+            return None
+        return did, lo, hi
+
+    # every `Section[idx].field` occurrence, grouped by the comparison (or declaration) it stands in
+    groups = {}
+    for x in walk(fn["body"]):
+        if x["k"] == "MemberExpr" and x.get("n") in cover:
+            arr = strip(x["c"][0])
+            if arr is None or arr["k"] != "ArraySubscriptExpr":
+                continue
+            # the statement-level owner: nearest IfStmt condition / DeclStmt
+            p, ch = par.get(x["id"]), x
+            while p is not None and p["k"] not in ("IfStmt", "DeclStmt", "ForStmt", "CompoundStmt"):
+                ch, p = p, par.get(p["id"])
+            if p is None or p["k"] in ("ForStmt", "CompoundStmt"):
+                continue
+            groups.setdefault((p["id"], x["n"]), []).append((x, arr))
+    for (owner, field), occ in groups.items():
+        fs = enclosing_for(occ[0][0])
+        if fs is None:
+            idxs = [common.const_value(a["c"][1]) for _, a in occ]
+            if any(i is None for i in idxs):
+                problems.append("line %d: non-constant index outside a loop" % occ[0][0]["l"])
+                continue
+            c = max(idxs)
+            cover[field].append((c, (None, c + 1), occ[0][0]["l"]))
+        else:
+            lr = loop_range(fs)
+            if lr is None:
+                problems.append("line %d: loop header not of the form `i = const; i < bound; i += 1`" % fs["l"])
+                continue
+            did, lo, hi = lr
+            offs = []
+            for _, a in occ:
+                af = _affine(a["c"][1], did)
+                if af is None or af[0] != "i":
+                    problems.append("line %d: index is not the loop variable plus a constant" % a["l"])
+                    offs = None
+                    break
+                offs.append(af[1])
+            if offs is None:
+                continue
+            d = max(offs)    # the entry constrained by the test is the highest one; lower ones are its (already constrained) base
+            cover[field].append((lo + d, (hi[0], hi[1] + d), fs["l"]))
+    return cover, problems
+
+
+def check_header_cover(rep, f):
+    fn = f.func("libChkHeader")
+    # first entry: where the reader (libGetHeader) starts filling hdr.Section[]
+    start = None
+    for x in walk(f.func("libGetHeader")["body"]):
+        if x["k"] == "ForStmt" and x["c"][0] is not None and x["c"][0]["k"] == "BinaryOperator" and x["c"][0]["op"] == "=":
+            if any(m["k"] == "MemberExpr" and m.get("n") == "offset" for m in walk(x["c"][3])):
+                start = common.const_value(x["c"][0]["c"][1])
+    if start is None:
+        raise AnalysisBroken("libGetHeader: the loop that reads hdr.Section[].offset was not found")
+    cover, problems = header_cover(fn)
+    if problems:
+        raise AnalysisBroken("libChkHeader: " + "; ".join(problems))
+    want_hi = ("lib->hdr.numSect", 0)
+    for field in ("name", "offset"):
+        key = "libChkHeader:covers-all-entries:" + field
+        iv = sorted(cover[field], key=lambda t: t[0])
+        if not iv:
+            raise AnalysisBroken("libChkHeader no longer tests hdr.Section[].%s" % field)
+        pos = (None, start)     # covered up to here (exclusive)
+        gap = None
+        for lo, hi, line in iv:
+            if pos[0] is None:
+                if lo > pos[1]:
+                    gap = "entries %d..%d" % (pos[1], lo - 1)
+                    break
+                if hi[0] is None:
+                    pos = (None, max(pos[1], hi[1]))
+                else:
+                    pos = hi
+            # once the cover is symbolic (reaches numSect+k) further intervals cannot extend it soundly
+        if gap is None and pos != want_hi:
+            if pos[0] == want_hi[0] and pos[1] > 0:
+                gap = None    # covers more than the entries in use: harmless here, reading past numSect is K/R3 territory
+            else:
+                gap = "entries from %s up to lib->hdr.numSect" % ("%s%+d" % (pos[0], pos[1]) if pos[0] else pos[1])
+        if gap is None:
+            rep.ok("R4", key, sample={"intervals": [[lo, "%s%+d" % (hi[0], hi[1]) if hi[0] else hi[1]] for lo, hi, _ in iv]})
+        else:
+            rep.violation("R4", key, "lib.c:%d (libChkHeader)" % iv[0][2],
+                          "the header validator does not constrain hdr.Section[].%s for %s, although libGetSection seeks to and reads "
+                          "every entry below numSect: a damaged %s there is used silently" % (field, gap, field))
 
 
 def digest(f):
@@ -211,6 +368,7 @@ def run(tier, only=None):
     else:
         rep.violation("R3", "libGetSection:buffer-size-is-read-size", "lib.c:%d (libGetSection)" % fn["l"],
                       "the section buffer is not sized by the same count that the checked read used")
+    check_header_cover(rep, common.extract("lib.c", trees=["libChkHeader", "libGetHeader"]))
     # R3 taint
     probe = os.path.join(common.VERIF, "witness", "foam_probe.c")
     fp = common.extract(probe)
